@@ -259,3 +259,59 @@ func VerifC20Projection() {
 		rt.Assert(len(out.GetColumnNames()) == len(items), "only-the-selected-columns")
 	}
 }
+
+// C20 (b): LIMIT together with a WHERE clause: the limit applies to the rows that satisfy the
+// predicate (SELECT * FROM bucket WHERE <one comparison on Epoch or V> LIMIT n returns the first n
+// matching rows), whichever way the predicate is evaluated (pushed down into the scan or filtered).
+func VerifC20LimitWithWhere() {
+	rt.Opt("clock", 1)
+	root := rt.TempDir()
+	defer rt.Cleanup()
+	e := vSQLStart(root)
+	key := "AAPL/1D/OHLCV"
+	t0, v, _ := vSQLBars(e, key)
+	spg := NewStaticPredicateGroup()
+	onEpoch := rt.Fix(rt.Int("on_epoch", 0, 1)) == 1
+	op := vOps[int(rt.Fix(rt.Int("op", 0, 4)))]
+	var lit int64
+	if onEpoch {
+		lit = (t0 - vDay + rt.Int("epoch_lit_sec", 0, 5*vDay)) * 1000000000
+		vAddComparison(spg, "Epoch", op, lit)
+	} else {
+		lit = int64(rt.Int32("v_lit"))
+		vAddComparison(spg, "V", op, lit)
+	}
+	sr := NewSelectRelation()
+	sr.IsPrimary, sr.IsSelectAll = true, true
+	sr.PrimaryTargetName = []string{key}
+	sr.StaticPredicates = spg
+	limit := int(rt.Fix(rt.Int("limit", 1, 3)))
+	sr.Limit = limit
+	rt.Reach("entered")
+	out, err := sr.Materialize(NewDefaultAggRunner(e.cat), e.cat)
+	rt.Assert(err == nil, "query-succeeds")
+	rt.Reach("materialized")
+	var gotE []int64
+	var gotV []int32
+	if out != nil && out.Len() > 0 {
+		gotE = out.GetEpoch()
+		gotV, _ = out.GetColumn("V").([]int32)
+	}
+	var wantE []int64
+	var wantV []int32
+	for i := 0; i < 3 && len(wantE) < limit; i++ {
+		ok := false
+		if onEpoch {
+			ok = vHolds(op, (t0+int64(i)*vDay)*1000000000, lit)
+		} else {
+			ok = vHolds(op, int64(v[i]), lit)
+		}
+		if ok {
+			wantE, wantV = append(wantE, t0+int64(i)*vDay), append(wantV, v[i])
+		}
+	}
+	rt.Assert(len(gotE) == len(wantE), "first-n-matching-rows")
+	for i := range wantE {
+		rt.Assert(gotE[i] == wantE[i] && gotV[i] == wantV[i], "first-n-matching-rows")
+	}
+}
